@@ -214,7 +214,11 @@ def pubKeyPath (key : Bytes) : Except Err (Nat × Nat) :=
 
 abbrev Bucket := KV.SMap Bytes
 
-def key (s : String) : Bytes := bytesOfString s
+/-- the bytes of an ASCII string (key names, JSON member names and constants are ASCII: `ascii_tables` in the lemmas);
+    unlike `String.toUTF8` this reduces in the kernel -/
+def asc (s : String) : Bytes := s.toList.map (fun c => UInt8.ofNat c.toNat)
+
+def key (s : String) : Bytes := asc s
 
 /-- ldb `Bucket.Put`: refuses an empty value, then an empty key -/
 def bput (b : Bucket) (k v : Bytes) : Except Err Bucket :=
@@ -398,14 +402,12 @@ def exportKs (b : Bucket) (purpose coin : Nat) : Except Err KeystoreJ := do
   let (inn, ex) ← fetchChildNum b
   let (_, priv) ← fetchMasterKeyParams b
   let (_, _, cent) ← fetchCryptoKeys b
-  pure { remarks := remark.getD [], version := version, cipher := bytesOfString exportCipher,
-         entropyEnc := hexEnc (ent.getD []), kdf := bytesOfString exportKDF,
+  pure { remarks := remark.getD [], version := version, cipher := asc exportCipher,
+         entropyEnc := hexEnc (ent.getD []), kdf := asc exportKDF,
          privParams := hexEnc (priv.getD []), cryptoKeyEntropyEnc := hexEnc (cent.getD []),
          purpose := purpose, coin := coin, account := usage, externalChildNum := ex, internalChildNum := inn }
 
 /-! ### encoding/json of the struct (Keystore.Bytes) -/
-
-def asc (s : String) : Bytes := bytesOfString s
 
 def isCont (b : UInt8) : Bool := 128 ≤ b.toNat && b.toNat ≤ 191
 
@@ -467,7 +469,8 @@ def escBody : Nat → Bytes → Bytes
 
 def jstr (s : Bytes) : Bytes := [34] ++ escBody s.length s ++ [34]
 
-def jnat (n : Nat) : Bytes := asc (toString n)
+/-- strconv.AppendUint(…, 10) -/
+def jnat (n : Nat) : Bytes := (Nat.toDigits 10 n).map (fun c => UInt8.ofNat c.toNat)
 
 /-- `"name":` followed by the value, preceded by a comma unless first -/
 def member (first : Bool) (name : String) (v : Bytes) : Bytes :=
